@@ -1799,6 +1799,112 @@ def setdefault_race(ctx, res, stats, thorough):
     stats['setdefault_race_runs'] = stats.get('setdefault_race_runs', 0) + nruns
 
 
+S5_READER_EVENTS = 3        # SELECT, open, read: what one lookup of a file-backed value makes when nobody interferes
+
+
+def s5_value(i, file_backed):
+    return ('s5v%d-' % i) * 9 if file_backed else 500 + i
+
+
+def s5_grid(m, twice):
+    """Placements of m replacements inside one lookup: the reader makes a_0 events, the first replacement runs to its end, the reader
+    makes a_1 more events, the second replacement runs, ...; a_0 in 0..3 (before / after each event of an undisturbed lookup), every
+    later a_i in 0..4 (a lookup that looks again makes open, SELECT, open, read)."""
+    out = [[a] for a in range(S5_READER_EVENTS + 1)]
+    for _ in range(m - 1):
+        out = [p + [a] for p in out for a in range(S5_READER_EVENTS + 2)]
+    return out
+
+
+def s5_run(files, placement, twice, mkdir):
+    """files: [initial value is file-backed, first replacement is, second is, ...]; placement: see s5_grid; twice: ONE writer makes all
+    the replacements one after the other (else every replacement is a client of its own).  Returns (init, programs, schedule, result,
+    outcomes, final)."""
+    m = len(files) - 1
+    init = [('k', s5_value(0, files[0]))]
+    sets = [('set', 'k', s5_value(i + 1, files[i + 1])) for i in range(m)]
+    if twice:
+        programs = [[('get', 'k')], sets]
+        # the events of each assignment when nobody interferes (file-backed: create, BEGIN, UPDATE, COMMIT, remove old file)
+        d = mkdir()
+        try:
+            result, outcomes, final = run_conc(d, init, programs, [1] * 400)
+        finally:
+            shutil.rmtree(d, ignore_errors=True)
+        ends = [o[3] for o in (outcomes[1] or [])]
+        lens = [e - (ends[i - 1] if i else 0) for i, e in enumerate(ends)]
+        schedule = []
+        for i, a in enumerate(placement):
+            schedule += [0] * a + [1] * (lens[i] if i < len(lens) else 40)
+        schedule += [0] * 80 + [1] * 80
+    else:
+        programs = [[('get', 'k')]] + [[s] for s in sets]
+        schedule = []
+        for i, a in enumerate(placement):
+            schedule += [0] * a + [i + 1] * 40
+        schedule += [0] * 80
+    d = mkdir()
+    try:
+        result, outcomes, final = run_conc(d, init, programs, schedule)
+    finally:
+        shutil.rmtree(d, ignore_errors=True)
+    return init, programs, schedule, result, outcomes, final
+
+
+def lookup_among_replacements(ctx, res, stats, thorough):
+    """S5 (continuous presence, directed): ONE lookup of a key against TWO and THREE replacements of its value (never a removal), each
+    replacement placed at every point inside the lookup -- also after the points the lookup reaches only because an earlier replacement
+    made it look again -- for every combination of the placements; replacements by separate clients and by one client that assigns
+    several times; file-backed and inline values mixed.  The key is present in every committed state, so the lookup must return a value
+    that was stored under it (monitor_s1) and the final value is the last assignment's."""
+    per_sig = {}
+    nruns = 0
+    looked_again = 0
+    plans = []
+    for m in (2, 3):
+        pats = [[bool(b >> i & 1) for i in range(m + 1)] for b in range(2 ** (m + 1))]
+        allfile = [True] * (m + 1)
+        if not thorough:
+            others = [p for p in pats if p != allfile]
+            pats = [allfile] + ([others[(ctx.seed * 3 + m) % len(others)]] if m == 2 else [])
+        elif m == 3:        # three replacements: at most one inline value among the four, and all inline
+            pats = [p for p in pats if sum(p) >= m or not any(p)]
+        for files in pats:
+            for twice in ((False, True) if (m == 2 or (thorough and files == allfile)) else (False,)):
+                plans.append((m, files, twice))
+    for m, files, twice in plans:
+        for placement in s5_grid(m, twice):
+            init, programs, schedule, result, outcomes, final = s5_run(files, placement, twice, lambda: ctx.scratch('c12v'))
+            if result['overflow']:
+                stats['schedules_overflowed'] = stats.get('schedules_overflowed', 0) + 1
+                continue
+            nruns += 1
+            used = result['schedule_used']
+            res.count(['sched', 'S5', files, twice, placement, used], nontrivial=switches(used) >= 2)
+            looked_again += int(sum(1 for c, e, _ in result['log'] if c == 0 and e == 'sql:SELECT') >= 2)
+            if nruns == 1:
+                res.sample({'scenario': 'S5', 'init': crepr(init), 'programs': [[crepr(list(op)) for op in p] for p in programs],
+                            'placement': placement, 'log': short_log(result['log'])[:40]}, limit=8)
+            found = monitor_s1(init, programs, result, outcomes, not any(files))
+            last = programs[-1][-1][2]
+            if not found and (final is None or not teq(list(final), [('k', last)])) and all(o is not None and all(x[1][0] == 'ok' for x in o) for o in outcomes):
+                found.append(('index_replacements_final', 'after %d replacements of one key (the last one stores %s) the index holds %s'
+                              % (m, crepr(last)[:40], crepr(final)[:80]), {'final': crepr(final)[:200]}))
+            seen = set()
+            for sig, desc, extra in found:
+                if sig in seen or per_sig.get(sig, 0) >= 3:
+                    continue
+                seen.add(sig)
+                per_sig[sig] = per_sig.get(sig, 0) + 1
+                extra = dict(extra, replacements=m, file_backed=files, one_writer=twice, reader_events_before_each_replacement=placement)
+                res.violations.append(fw.Violation(
+                    sig, desc + ' [one lookup against %d replacements of the key%s; the lookup had made %s event(s) before the successive replacements ran; '
+                    'values file-backed: %r]' % (m, ' by one writer' if twice else '', '+'.join(map(str, placement)), files),
+                    conc_case('S1', not any(files), init, programs, result, extra)))
+    stats['lookup_among_replacements_runs'] = stats.get('lookup_among_replacements_runs', 0) + nruns
+    stats['lookup_among_replacements_that_looked_again'] = stats.get('lookup_among_replacements_that_looked_again', 0) + looked_again
+
+
 def gen_schedule(rng, n):
     length = rng.randint(50, 300)
     if rng.random() < 0.5:
@@ -2021,7 +2127,8 @@ def finish_extra(res, stats):
     })
     for k in ('histories_failing', 'histories_contended', 'failing_sources', 'contended_calls', 'contended_calls_that_waited',
               'contended_failed_begin_attempts', 'directed_int_histories', 'shared_dir_runs', 'shared_dir_programs', 'setdefault_race_runs',
-              'histories_evicting_parent', 'evicting_parent_items_stored'):
+              'histories_evicting_parent', 'evicting_parent_items_stored', 'lookup_among_replacements_runs',
+              'lookup_among_replacements_that_looked_again'):
         res.extra[k] = stats.get(k, 0)
 
 
@@ -2057,6 +2164,12 @@ RULE = ('sequential: generated histories of 10-40 mapping operations (two stream
         'pairs by seed plus [] x replacement and [] x popitem(last)).  Setdefault race (S4, monitor only): setdefault of a MISSING key (inline and '
         'file-backed default) against another client\'s setdefault with another default / [] = / update / lookup of the same key, the other client '
         'placed after i = 0..n events of the setdefault; same requirement (two setdefault calls return the same, stored value).  '
+        'Several replacements inside one lookup (S5, monitor only): ONE lookup of a key against two and three replacements of its value (separate '
+        'clients, or one client assigning several times), the i-th replacement run to its end after the lookup has made a_i further events, for '
+        'EVERY combination a_0 in 0..3, a_i in 0..4 (so also at the points the lookup reaches only because an earlier replacement made it look '
+        'again), all values file-backed (quick tier: plus one mixed inline / file-backed pattern by seed for two replacements; thorough: every '
+        'pattern for two replacements, for three those with at most one inline value): the lookup returns a value stored under the key, never '
+        'KeyError, and the last assignment is what remains.  '
         'Evicting parents (monitor only, own random stream): an Index from FanoutCache.index / DjangoCache.index (OPTIONS) of a parent CONSTRUCTED '
         'with each eviction policy and size_limit %d over two shards, filled with 80-170 pairs of inline values of 200-900 characters (several '
         'times one shard\'s share of that limit) by update, [] and setdefault, read, obtained again by reopen / unpickle, filled further, popped '
@@ -2077,6 +2190,7 @@ def run(ctx):
     concurrent(ctx, res, nsched, stats)
     shared_dir_race(ctx, res, stats, not ctx.quick)
     setdefault_race(ctx, res, stats, not ctx.quick)
+    lookup_among_replacements(ctx, res, stats, not ctx.quick)
     machine_correspondence(ctx, res, 40 if ctx.quick else 400)
     runs = []
     regression_lookup_overlapping_replace(res, runs)
@@ -2098,6 +2212,7 @@ def search(ctx, broken):
     concurrent(ctx, res, nsched, stats)
     shared_dir_race(ctx, res, stats, True)
     setdefault_race(ctx, res, stats, True)
+    lookup_among_replacements(ctx, res, stats, True)
     regression_lookup_overlapping_replace(res)
     return res
 
